@@ -101,6 +101,56 @@ impl ReportHistory {
         Self { client }
     }
 
+    /// Creates a client with an empty relay map and no probes or checks at all, so that
+    /// [`Self::get_report`] completes without any I/O and without any timer.
+    pub fn new_without_probes() -> Self {
+        let tls_config = crate::tls::CaTlsConfig::embedded()
+            .client_config(crate::tls::default_provider())
+            .expect("embedded roots");
+        let opts =
+            Options::new(tls_config).net_report_config(super::NetReportConfig::minimal());
+        let client = Client::new(
+            crate::dns::DnsResolver::new(),
+            RelayMap::empty(),
+            opts,
+            Default::default(),
+        );
+        Self { client }
+    }
+
+    /// Runs the real `Client::get_report` (full/incremental bookkeeping, probe phase, history)
+    /// with `finished` standing in for the report the probe phase produced.
+    pub async fn get_report(&mut self, is_major: bool, finished: Report) -> Report {
+        self.client.verif_finished_report = Some(finished);
+        self.client
+            .get_report(
+                super::IfStateDetails::default(),
+                is_major,
+                tokio_util::sync::CancellationToken::new(),
+            )
+            .await
+    }
+
+    /// Number of full reports so far (`Metrics::reports_full`).
+    pub fn reports_full(&self) -> u64 {
+        self.client.metrics.reports_full.get()
+    }
+
+    /// Number of reports so far (`Metrics::reports`).
+    pub fn reports_total(&self) -> u64 {
+        self.client.metrics.reports.get()
+    }
+
+    /// `Reports::next_full`.
+    pub fn next_full(&self) -> bool {
+        self.client.reports.next_full
+    }
+
+    /// Time since `Reports::last_full`.
+    pub fn since_last_full(&self) -> Duration {
+        n0_future::time::Instant::now().duration_since(self.client.reports.last_full)
+    }
+
     /// Calls `Client::add_report_history_and_set_preferred_relay`.
     pub fn add(&mut self, report: &mut Report) {
         self.client
